@@ -300,5 +300,8 @@ def run(ctx: Ctx) -> None:
     ctx.attempt(rule_r2, ctx)
     ctx.attempt(rule_r5, ctx)
     ctx.attempt(rule_r6_entry_points, ctx)
+    from . import c19text
+
+    c19text.run(ctx)
     ctx.assume("file names in lookup directories are inspected when the directory is listed (allowed by the property)")
     ctx.assume("the model of ReadableDSDLFile.read used for the namespace reader plays the documented protocol: dependencies are read with the same arguments and reported to the visitors; a build prints through the handler it was given")
